@@ -118,4 +118,7 @@ def run(ctx):
     for nm in ("SlotGuard", "FlushGuard", "ForceFlushGuard"):
         cl = [i for i in F.impls_of("core::clone::Clone") if i["crate"] == MQ and (i.get("self_head") or {}).get("adt", "").endswith("slot::" + nm)]
         ctx.check(not cl, "R13.4", SLOT + nm + "#not-Clone", "", "%s implements Clone" % nm)
+    # compile-fail witnesses (type-level part of the property), discharged by rustc's type checker
+    from mq import witness as _w
+    _w.report_cf(ctx, "W13", _w.run_witness(), "C13")
     return EXPL
